@@ -37,6 +37,8 @@ def cases(tier, seed):
     n = 1500 if tier == "quick" else 250000
     out = [{"t": "tree", "rep": i, "seed": seed} for i in range(n)]
     out.append({"t": "reject", "seed": seed})
+    for i in range(24 if tier == "quick" else 600):
+        out.append({"t": "exotic", "rep": i, "seed": seed})
     return out
 
 
@@ -132,6 +134,8 @@ def run_case(case, ctx):
 
     if case["t"] == "reject":
         return rejections(case, ctx)
+    if case["t"] == "exotic":
+        return exotic(case, ctx)
     rng = np_rng(ID, case["seed"], case["rep"])
     kind = gen.KINDS[case["rep"] % 3]
     nv = int(rng.integers(2, 5))
@@ -244,3 +248,45 @@ def rejections(case, ctx):
     ctx.must_raise("Obs + tensor", any_exc, lambda: X + torch.tensor([1.0, 2.0]))
     ctx.must_raise("Obs * dict", any_exc, lambda: X * {})
     ctx.mark_nontrivial("rejections")
+
+
+def exotic(case, ctx):
+    """Numeric scalars that are not Python int/float (numpy integers, float32, Fraction): the statement leaves open whether
+    they are accepted, but not what an accepted one means - either the expression is refused when built, or it evaluates
+    to the arithmetic on its parts."""
+    import fractions
+
+    from qucumber.observables import NeighbourInteraction, SigmaX, SigmaZ
+
+    rng = np_rng(ID, case["seed"], "exotic", case["rep"])
+    nv = 3
+    am, ph = gen.draw_model(rng, "complex", nv, 2, 1, scales=[0.3, 0.8])
+    st = gen.make_state("complex", am, ph)
+    batch = torch.tensor(R.space(nv)[rng.integers(0, 8, size=5)], dtype=torch.double)
+    leaf = [SigmaX(), SigmaZ(), NeighbourInteraction(c=1)][case["rep"] % 3]
+    base = leaf.apply(st, batch.clone()).numpy().astype(float)
+    scal = [np.int64(3), np.int32(-2), np.float32(0.5), np.arange(5)[2], fractions.Fraction(3, 4), np.float16(2.0),
+            np.uint8(4), np.bool_(True)][case["rep"] % 8]
+    forms = {"O+s": (lambda: leaf + scal, lambda v: v + float(scal)), "s+O": (lambda: scal + leaf, lambda v: float(scal) + v),
+             "O-s": (lambda: leaf - scal, lambda v: v - float(scal)), "s-O": (lambda: scal - leaf, lambda v: float(scal) - v),
+             "O*s": (lambda: leaf * scal, lambda v: v * float(scal)), "s*O": (lambda: scal * leaf, lambda v: float(scal) * v)}
+    for name, (mk, ref) in forms.items():
+        try:
+            comp = mk()
+        except Exception:  # noqa: BLE001  refused when built: fine
+            ctx.count("exotic_scalars_refused")
+            continue
+        try:
+            got = comp.apply(st, batch.clone())
+        except Exception as e:  # noqa: BLE001
+            ctx.violation("accepted-but-unusable", f"{name} with a {type(scal).__name__} scalar was accepted when built but apply raised "
+                          f"{type(e).__name__}: {e}", tags={"form": name, "scalar_type": type(scal).__name__})
+            continue
+        ctx.count("exotic_scalars_accepted")
+        g = got.detach().numpy().astype(float) if isinstance(got, torch.Tensor) else np.full(base.shape, float(got))
+        want = ref(base)
+        if g.shape != want.shape or np.any(np.abs(g - want) > 1e-6 * (1 + np.abs(want))):
+            ctx.violation("composite-value", f"{name} with scalar {scal!r} ({type(scal).__name__}) was accepted but evaluates to "
+                          f"{g[:3].tolist()} instead of {want[:3].tolist()}", tags={"form": name, "scalar_type": type(scal).__name__})
+    ctx.mark_nontrivial(f"exotic:{case['rep']}")
+    ctx.seen("exotic_scalar_types", type(scal).__name__)
